@@ -11,7 +11,8 @@ CHECKS["C16"] = {
     "level": "exploration",
     "subs": [
         _sub("TestC16_Codec", 40000, 1200000, sq=4, st=6),
-        _sub("TestC16_History", 2400, 72000, sq=12, st=10),
+        _sub("TestC16_History", 2400, 72000, sq=10, st=10),
+        _sub("TestC16_KVContentReturns", 1000, 40000, sq=2, st=2),
     ],
     "assumptions": ["fake object store is faithful for read-after-write, list-after-write, atomic single-object PUT, NoSuchKey on missing GET"],
 }
